@@ -5,6 +5,7 @@ import random
 import re
 
 from vmon import gens as G
+from vmon.gens import THOROUGH_SCALE as TS
 from vmon import oracles as O
 
 PID = "C19"
@@ -428,7 +429,7 @@ def generate(tier, seed):
     yield "regex", {"seqs": ["CA-SF", "CAWSF", "C-TSY"]}, True
     yield "consensus", {"seqs": ["CASSF", "CAWSF", "CATSY", "CAWTY"]}, True
     yield "seqlogos", {"seqs": ["CASSF", "CAWSF", "CATSY", "CAWTY"]}, True
-    for i in range(500 if thorough else 40):
+    for i in range(500 * TS if thorough else 40):
         L = rng.randint(1, 9)
         n = rng.randint(1, 12)
         alpha = rng.choice(["AC", "ACDW", G.AA])
@@ -439,7 +440,7 @@ def generate(tier, seed):
             yield "consensus", {"seqs": seqs}, i < 15
         if i % 5 == 1 and not gaps:
             yield "seqlogos", {"seqs": seqs}, i < 12
-    for i in range(300 if thorough else 30):
+    for i in range(300 * TS if thorough else 30):
         n = rng.randint(1, 40)
         data = [rng.choice([1, 1, 1, 2, 3, 5, 10, 100, 0.5]) for _ in range(n)]
         if i % 3 == 0:
@@ -447,18 +448,18 @@ def generate(tier, seed):
                 data.insert(rng.randrange(len(data) + 1), None)
         yield "rankfrequency", {"data": data, "normalize_x": i % 2 == 0, "normalize_y": i % 4 < 2, "scalex": rng.choice([1.0, 2.0, 0.1]),
                                 "scaley": rng.choice([1.0, 3.0]), "log_x": i % 5 != 0, "log_y": i % 7 != 0}, i < 10
-    for i in range(600 if thorough else 50):
+    for i in range(600 * TS if thorough else 50):
         k = rng.randint(1, 15 if i % 2 else 8)
         pool = [f"L{j}" for j in range(k)] if i % 3 else list(range(k))
         labels = [rng.choice(pool) for _ in range(rng.randint(1, 40))]
         yield "labels", {"labels": labels, "min_count": rng.choice([None, 1, 2, 3, 5]), "which": "hls" if i % 2 else "tableau", "np_seed": i}, i < 20
-    for i in range(300 if thorough else 24):
+    for i in range(300 * TS if thorough else 24):
         pts = [[rng.randint(0, 4), rng.randint(0, 3)] for _ in range(rng.randint(1, 40))]
         if i % 3 == 0:
             pts = [[p[0] * 0.5, p[1] * 1.25] for p in pts]
         yield "density", {"pts": pts, "sort": i % 4 != 0}, i < 10
     cells = ["CAF", "CAAF", "CAW", "CF", "CASF", "CAAAF", "CASSF", "CAWWF"]
-    n_c = 400 if thorough else 16
+    n_c = 400 * TS if thorough else 16
     for i in range(n_c):
         n = rng.randint(3, 12)
         rows = [[rng.choice(cells), rng.choice(cells)] for _ in range(n)]
